@@ -8,6 +8,8 @@
 //	       min / max / max(a,-b) of their operands' values, Translate against f(p - t)
 //	lip    a pair p, q: |f p - f q| <= |p - q| (1 + 1e-9)   (Coq and harness)
 //	exact  |f p| against a brute-force nearest-point search on the surface (sphere, box, capsule, plane)
+//	scaled the same at scale 2^k, k in -40..20 (all lengths and the point multiplied exactly): homogeneity against the
+//	       value at scale 1, closed-form reference and Coq model at the scaled parameters, all RELATIVE to the scale
 //	seq    constructor side effects: Union / Intersect / Subtract / Translate called in every order on ONE shared
 //	       operand slice, then every constructed field and every operand re-evaluated against the original shapes
 //	degenerate-*  Line(a,a,r) and RoundedCone with one end sphere inside the other: separate counted streams
@@ -446,10 +448,15 @@ func main() {
 			if json.Unmarshal(in.Raw, &d) == nil {
 				h.addExact(d)
 			}
+		case "scaled":
+			var d scaledDesc
+			if json.Unmarshal(in.Raw, &d) == nil {
+				h.addScaled(d)
+			}
 		case "seq":
 			var d seqDesc
 			if json.Unmarshal(in.Raw, &d) == nil {
-				h.addSeq(d)
+				h.addSeq(d, true)
 			}
 		default:
 			fmt.Fprintln(os.Stderr, "unknown case kind", in.Kind)
@@ -499,9 +506,17 @@ func main() {
 		s := genPrimitive(r, t)
 		h.addExact(evalDesc{s, genPointNear(r, s), false})
 	}
+	// scale dimension: every shape stream again with all lengths and the point multiplied by 2^k, k in -40..20
+	for _, d := range fixedScaled(r) {
+		h.addScaled(d)
+	}
+	for i := 0; i < n/3; i++ {
+		s := genShape(r, 1)
+		h.addScaled(scaledDesc{s, r.Range(-40, 20), genPointNear(r, s)})
+	}
 	// constructor side effects / aliasing: operator constructors on one shared caller-owned slice, in every order
-	for _, d := range fixedSeqs() {
-		h.addSeq(d)
+	for i, d := range fixedSeqs() {
+		h.addSeq(d, i%4 == 0)
 	}
 	for i := 0; i < n/10+4; i++ {
 		shapes, order, off := genSeq(r)
@@ -514,7 +529,7 @@ func main() {
 			} else {
 				p = genPointNear(r, Shape{T: hx.Pick(r, []string{"union", "intersect"}), Sub: u.Sub})
 			}
-			h.addSeq(seqDesc{shapes, order, off, p})
+			h.addSeq(seqDesc{shapes, order, off, p}, k == 2)
 		}
 	}
 	// degenerate parameter regions: separate streams
